@@ -198,6 +198,21 @@ class FA:
         fn = self.fn
         defs = {}
         inb = {}
+        # closures whose captures are all shared references: calling them through `&mut` (FnMut::call_mut, as iterator adaptors do) cannot
+        # change what they hold, so a mutable borrow of such a closure is not a definition of it
+        ro_closures = set()
+        for b in fn.reachable():
+            for s in fn.blocks[b]["stmts"]:
+                if s["k"] == "assign" and not s["place"]["proj"] and s["rv"]["k"] == "aggregate" and s["rv"].get("agg") == "closure":
+                    okc = True
+                    for o in s["rv"].get("ops", []):
+                        ty = None
+                        if o["k"] in ("copy", "move") and not o["place"]["proj"]:
+                            ty = fn.locals[o["place"]["local"]]
+                        if not (ty and ty.get("k") == "ref" and not ty.get("mut")):
+                            okc = False
+                    if okc:
+                        ro_closures.add(s["place"]["local"])
         for b in sorted(fn.reachable()):
             blk = fn.blocks[b]
             lst = []
@@ -209,7 +224,7 @@ class FA:
                     rv = s["rv"]
                     if rv["k"] == "ref" and rv["mut"]:
                         rp = rv["place"]
-                        if not any(p["k"] == "deref" for p in rp["proj"]):
+                        if not any(p["k"] == "deref" for p in rp["proj"]) and not (rp["local"] in ro_closures and not rp["proj"]):
                             lst.append((i, rp["local"], "borrow"))
                 elif s["k"] == "setdiscr":
                     pl = s["place"]
